@@ -160,10 +160,10 @@ func loadProgram(dir string) (*Program, error) {
 				}
 				fi := &FuncInfo{Key: qualName(pk.Name, recvBaseName(fd), name), Pkg: pk, Decl: fd, Obj: obj,
 					Loops: map[int]*SpecInfo{}, IsSpecFile: isSpec}
-				if isSpec && (strings.HasPrefix(name, "sp_") || strings.HasPrefix(name, "op_") || strings.HasPrefix(name, "atominv_")) {
+				if isSpec && (hasPfx(name, "sp_") || hasPfx(name, "op_") || strings.HasPrefix(name, "atominv_") || strings.HasPrefix(name, "moninv_")) {
 					p.pure[obj] = fi
 				}
-				if isSpec && strings.HasPrefix(name, "gh_") {
+				if isSpec && hasPfx(name, "gh_") {
 					p.ghost[obj] = true
 				}
 				p.funcs[fi.Key] = fi
@@ -304,4 +304,16 @@ func (p *Program) funcKeys() []string {
 func (p *Program) pos(pos token.Pos) string {
 	ps := p.fset.Position(pos)
 	return fmt.Sprintf("%s:%d", strings.TrimPrefix(ps.Filename, "/repo/"), ps.Line)
+}
+
+// hasPfx: contract-function prefixes may be capitalised to export them across packages (Sp_, Gh_, Op_).
+func hasPfx(name, pfx string) bool {
+	return strings.HasPrefix(lowerFirst(name), pfx)
+}
+
+func lowerFirst(s string) string {
+	if s == "" {
+		return s
+	}
+	return strings.ToLower(s[:1]) + s[1:]
 }
